@@ -128,18 +128,29 @@ func boostable(q query.Query, b float64) query.Query {
 	return q
 }
 
-func leafCases() []qcase {
+// plainLeafCases: the C02 leaf family as it is.
+func plainLeafCases() []qcase {
 	var cs []qcase
 	for _, l := range gen.Leaves() {
 		l := l
 		cs = append(cs, qcase{name: l.String(), kind: l.Kind, mk: func() query.Query { return ref.ToBleve(l) }})
 	}
+	return cs
+}
+
+// variantLeafCases: boosts and options; a variant of a leaf that fails on its own inherits that class.
+func variantLeafCases() []qcase {
+	var cs []qcase
 	// boosts on every leaf
 	for _, l := range gen.Leaves() {
 		l := l
 		for _, b := range []float64{2.5, 0} {
 			b := b
-			cs = append(cs, qcase{name: fmt.Sprintf("%s^%v", l, b), kind: l.Kind + "+boost", mk: func() query.Query { return boostable(ref.ToBleve(l), b) }})
+			cs = append(cs, qcase{name: fmt.Sprintf("%s^%v", l, b), kind: "boost", leaves: []string{l.String()}, mk: func() query.Query { return boostable(ref.ToBleve(l), b) }})
+			// the boost of a lone clause is normalised away; next to an unboosted clause it shows in the scores
+			cs = append(cs, qcase{name: fmt.Sprintf("disj(%s^%v, all)", l, b), kind: "boost", leaves: []string{l.String()}, mk: func() query.Query {
+				return bleve.NewDisjunctionQuery(boostable(ref.ToBleve(l), b), bleve.NewMatchAllQuery())
+			}})
 		}
 	}
 	add := func(name, kind string, mk func() query.Query) { cs = append(cs, qcase{name: name, kind: kind, mk: mk}) }
@@ -349,7 +360,7 @@ func compoundCases(r *mc.Run) []qcase {
 	y := &ref.Q{Kind: "match", Field: "t", Text: "y"}
 	for _, c := range gen.Compose2(x, y) {
 		c := c
-		cs = append(cs, qcase{name: c.String() + "^3 (child^0.5)", kind: ref.ShapeAbs(c) + "+boost", leaves: []string{x.String(), y.String()}, mk: func() query.Query {
+		cs = append(cs, qcase{name: c.String() + "^3 (child^0.5)", kind: "boost-on-compound", leaves: []string{x.String(), y.String()}, mk: func() query.Query {
 			q := ref.ToBleve(c)
 			boostable(q, 3)
 			switch qq := q.(type) {
@@ -386,9 +397,22 @@ type a1state struct {
 func checkJSONQuery(r *mc.Run, ts []target, c qcase, st *a1state, part string) string {
 	q := c.mk()
 	rep := map[string]any{"query": c.name, "part": part}
-	fail := func(what, detail string) string {
-		class := fmt.Sprintf("json-query:%s:%s", what, c.kind)
-		// a compound made of a leaf that fails on its own is the leaf's defect
+	first := ""
+	var details []string
+	note := func(what, detail string) {
+		if first == "" {
+			first = what
+		}
+		if len(details) < 3 {
+			details = append(details, what+": "+detail)
+		}
+	}
+	finish := func() string {
+		if first == "" {
+			return ""
+		}
+		class := fmt.Sprintf("json-query:%s:%s", c.kind, first)
+		// a compound or variant made of a leaf that fails on its own is the leaf's defect
 		if st != nil {
 			st.mu.Lock()
 			for _, l := range c.leaves {
@@ -399,36 +423,40 @@ func checkJSONQuery(r *mc.Run, ts []target, c qcase, st *a1state, part string) s
 			}
 			st.mu.Unlock()
 		}
-		r.Violation(class, fmt.Sprintf("%s: %s", c.name, detail), rep)
+		r.Violation(class, fmt.Sprintf("%s: %s", c.name, strings.Join(details, " || ")), rep)
 		return class
 	}
 	var b []byte
 	var err error
 	if pv, stk := mc.Try(func() { b, err = json.Marshal(q) }); pv != nil {
-		return fail("marshal-panic", fmt.Sprintf("panic %v @ %s", pv, mc.TrimStack(stk)))
+		note("marshal-panic", fmt.Sprintf("panic %v @ %s", pv, mc.TrimStack(stk)))
+		return finish()
 	}
 	if err != nil {
-		return fail("marshal-error", err.Error())
+		note("marshal-error", err.Error())
+		return finish()
 	}
 	rep["json"] = string(b)
 	var q2 query.Query
 	if pv, stk := mc.Try(func() { q2, err = query.ParseQuery(b) }); pv != nil {
-		return fail("parse-panic", fmt.Sprintf("ParseQuery(%s) panic %v @ %s", b, pv, mc.TrimStack(stk)))
+		note("parse-panic", fmt.Sprintf("ParseQuery(%s) panic %v @ %s", b, pv, mc.TrimStack(stk)))
+		return finish()
 	}
 	if err != nil {
-		return fail("parse-error", fmt.Sprintf("ParseQuery(%s): %v", b, err))
+		note("parse-error", fmt.Sprintf("ParseQuery(%s): %v", b, err))
+		return finish()
 	}
 	b2, err := json.Marshal(q2)
 	if err != nil {
-		return fail("remarshal-error", err.Error())
+		note("remarshal-error", err.Error())
+		return finish()
 	}
-	class := ""
 	if string(b2) != string(b) {
-		class = fail("json-unstable", fmt.Sprintf("%s → %T → %s", b, q2, b2))
+		note("json-unstable", fmt.Sprintf("%s → %T → %s", b, q2, b2))
 	} else if q3, err := query.ParseQuery(b2); err != nil {
-		class = fail("second-parse-error", err.Error())
+		note("second-parse-error", err.Error())
 	} else if b3, _ := json.Marshal(q3); string(b3) != string(b2) {
-		class = fail("json-unstable-second", fmt.Sprintf("%s → %s", b2, b3))
+		note("json-unstable-second", fmt.Sprintf("%s → %s", b2, b3))
 	}
 	nh := -1
 	for _, t := range ts {
@@ -439,10 +467,11 @@ func checkJSONQuery(r *mc.Run, ts []target, c qcase, st *a1state, part string) s
 		r2, _, e2, pv2, s2 := runQuery(t.idx, q2t)
 		r.Eval(1)
 		if pv1 != nil || pv2 != nil {
-			return fail("search-panic", fmt.Sprintf("%s: panic %v %v @ %s%s", t, pv1, pv2, mc.TrimStack(s1), mc.TrimStack(s2)))
+			note("search-panic", fmt.Sprintf("%s: panic %v %v @ %s%s", t, pv1, pv2, mc.TrimStack(s1), mc.TrimStack(s2)))
+			break
 		}
 		if e1 != e2 {
-			class = fail("error-differs", fmt.Sprintf("%s: original error %q, after JSON %q (json %s)", t, e1, e2, b))
+			note("error-differs", fmt.Sprintf("%s: original error %q, after JSON %q (json %s)", t, e1, e2, b))
 			continue
 		}
 		if r1 != r2 {
@@ -450,7 +479,7 @@ func checkJSONQuery(r *mc.Run, ts []target, c qcase, st *a1state, part string) s
 			if idsOf(r1) != idsOf(r2) {
 				what = "the hit sets differ"
 			}
-			class = fail("results-differ", fmt.Sprintf("%s: %s: original %s | after JSON (%T) %s | json %s", t, what, r1, q2, r2, b))
+			note("results-differ", fmt.Sprintf("%s: %s: original %s | after JSON (%T) %s | json %s", t, what, r1, q2, r2, b))
 			continue
 		}
 		if nh < 0 {
@@ -460,6 +489,7 @@ func checkJSONQuery(r *mc.Run, ts []target, c qcase, st *a1state, part string) s
 			}
 		}
 	}
+	class := finish()
 	r.Outcome(fmt.Sprintf("a1|%s→%T|hits=%d|ok=%v", rootKind(c.kind), q2, nh, class == ""))
 	return class
 }
@@ -683,66 +713,32 @@ func resultView(sr *bleve.SearchResult) string {
 	return string(b)
 }
 
-func reqClassName(name string) string {
-	// structural part of the request name: which feature is in use
-	var parts []string
-	for _, f := range strings.Fields(name) {
-		switch {
-		case strings.HasPrefix(f, "sort="):
-			s := f[5:]
-			if i := strings.IndexAny(s, "{["); i > 0 {
-				s = s[:i]
-			}
-			parts = append(parts, "sort="+s)
-		case strings.HasPrefix(f, "facets=") && f != "facets=none":
-			s := f[7:]
-			if i := strings.Index(s, "("); i > 0 {
-				s = s[:i]
-			}
-			parts = append(parts, "facets="+s)
-		case strings.HasPrefix(f, "highlight=") && f != "highlight=none":
-			parts = append(parts, "highlight")
-		case strings.HasPrefix(f, "cursor=") && f != "cursor=0":
-			parts = append(parts, "search_after/before")
-		}
-	}
-	return strings.Join(parts, ",")
-}
-
-func checkRequest(r *mc.Run, ts []target, c reqCase) {
-	req := c.mk()
-	rep := map[string]any{"request": c.name, "part": "a2"}
-	cls := reqClassName(c.name)
-	b, err := json.Marshal(req)
+// requestProblem runs clause (a2) for one request: "" when the JSON copy is equivalent.
+func requestProblem(ts []target, mk func() *bleve.SearchRequest) (what, detail string, nhits int, evals int) {
+	b, err := json.Marshal(mk())
 	if err != nil {
-		r.Violation("json-request:marshal-error:"+cls, c.name+": "+err.Error(), rep)
-		return
+		return "marshal-error", err.Error(), 0, 0
 	}
-	rep["json"] = string(b)
 	var req2 bleve.SearchRequest
 	var uerr error
 	if pv, stk := mc.Try(func() { uerr = json.Unmarshal(b, &req2) }); pv != nil {
-		r.Violation("json-request:unmarshal-panic:"+cls, fmt.Sprintf("%s: panic %v @ %s", c.name, pv, mc.TrimStack(stk)), rep)
-		return
+		return "unmarshal-panic", fmt.Sprintf("json %s: panic %v @ %s", b, pv, mc.TrimStack(stk)), 0, 0
 	}
 	if uerr != nil {
-		r.Violation("json-request:unmarshal-error:"+cls, fmt.Sprintf("%s: %v (json %s)", c.name, uerr, b), rep)
-		return
+		return "unmarshal-error", fmt.Sprintf("json %s: %v", b, uerr), 0, 0
 	}
 	b2, err := json.Marshal(&req2)
 	if err != nil || string(b2) != string(b) {
-		r.Violation("json-request:json-unstable:"+cls, fmt.Sprintf("%s: %s → %s (%v)", c.name, b, b2, err), rep)
+		what, detail = "json-unstable", fmt.Sprintf("%s → %s (%v)", b, b2, err)
 	}
-	ok := true
-	nh := 0
-	for _, t := range ts[:len(ts)/2*2] {
+	for _, t := range ts {
 		if t.layout != "per-doc" {
 			continue
 		}
 		var v1, v2, e1, e2 string
 		pv, stk := mc.Try(func() {
 			// the original request is re-made: Search may record things in the request's sort objects
-			sr1, err1 := t.idx.Search(c.mk())
+			sr1, err1 := t.idx.Search(mk())
 			var rq bleve.SearchRequest
 			if err := json.Unmarshal(b, &rq); err != nil {
 				panic(err)
@@ -752,7 +748,7 @@ func checkRequest(r *mc.Run, ts []target, c reqCase) {
 				e1 = err1.Error()
 			} else {
 				v1 = resultView(sr1)
-				nh = len(sr1.Hits)
+				nhits = len(sr1.Hits)
 			}
 			if err2 != nil {
 				e2 = err2.Error()
@@ -760,26 +756,128 @@ func checkRequest(r *mc.Run, ts []target, c reqCase) {
 				v2 = resultView(sr2)
 			}
 		})
-		r.Eval(1)
-		if pv != nil {
-			r.Violation("json-request:search-panic:"+cls, fmt.Sprintf("%s on %s: panic %v @ %s", c.name, t, pv, mc.TrimStack(stk)), rep)
-			ok = false
-			continue
+		evals++
+		add := func(w, d string) {
+			if what == "" {
+				what = w
+			}
+			if len(detail) < 1500 {
+				if detail != "" {
+					detail += " || "
+				}
+				detail += d
+			}
 		}
-		if e1 != e2 {
-			r.Violation("json-request:error-differs:"+cls, fmt.Sprintf("%s on %s: original error %q, after JSON %q; json %s", c.name, t, e1, e2, b), rep)
-			ok = false
-			continue
+		switch {
+		case pv != nil:
+			add("search-panic", fmt.Sprintf("on %s: panic %v @ %s", t, pv, mc.TrimStack(stk)))
+		case e1 != e2:
+			add("error-differs", fmt.Sprintf("on %s: original error %q, after JSON %q; json %s", t, e1, e2, b))
+		case v1 != v2:
+			add("result-differs", fmt.Sprintf("on %s: json %s: original %s; after JSON %s", t, b, clip(v1, 500), clip(v2, 500)))
 		}
 		if e1 != "" {
-			nh = -1
-		}
-		if v1 != v2 {
-			r.Violation("json-request:result-differs:"+cls, fmt.Sprintf("%s on %s: json %s\n original %s\n after    %s", c.name, t, b, clip(v1, 600), clip(v2, 600)), rep)
-			ok = false
+			nhits = -1
 		}
 	}
-	r.Outcome(fmt.Sprintf("a2|%s|hits=%d|ok=%v", cls, nh, ok))
+	return
+}
+
+// request features that can be reset to their default one at a time to find the one at fault
+var reqFeatures = []struct {
+	name    string
+	present func(*bleve.SearchRequest) bool
+	strip   func(*bleve.SearchRequest)
+}{
+	{"search_after/before", func(q *bleve.SearchRequest) bool { return q.SearchAfter != nil || q.SearchBefore != nil }, func(q *bleve.SearchRequest) { q.SearchAfter, q.SearchBefore = nil, nil }},
+	{"sort", func(q *bleve.SearchRequest) bool {
+		b, _ := json.Marshal(q.Sort)
+		return string(b) != `["-_score"]`
+	}, func(q *bleve.SearchRequest) {
+		q.SearchAfter, q.SearchBefore = nil, nil
+		q.SortBy([]string{"-_score"})
+	}},
+	{"facets", func(q *bleve.SearchRequest) bool { return len(q.Facets) > 0 }, func(q *bleve.SearchRequest) { q.Facets = nil }},
+	{"highlight", func(q *bleve.SearchRequest) bool { return q.Highlight != nil }, func(q *bleve.SearchRequest) { q.Highlight = nil }},
+	{"fields", func(q *bleve.SearchRequest) bool { return q.Fields != nil }, func(q *bleve.SearchRequest) { q.Fields = nil }},
+	{"from/size", func(q *bleve.SearchRequest) bool { return q.From != 0 || q.Size != 10 }, func(q *bleve.SearchRequest) { q.From, q.Size = 0, 10 }},
+	{"explain", func(q *bleve.SearchRequest) bool { return q.Explain }, func(q *bleve.SearchRequest) { q.Explain = false }},
+	{"includeLocations", func(q *bleve.SearchRequest) bool { return q.IncludeLocations }, func(q *bleve.SearchRequest) { q.IncludeLocations = false }},
+	{"score", func(q *bleve.SearchRequest) bool { return q.Score != "" }, func(q *bleve.SearchRequest) { q.Score = "" }},
+}
+
+func featureDetail(name string, q *bleve.SearchRequest) string {
+	switch name {
+	case "sort":
+		var kinds []string
+		for _, so := range q.Sort {
+			k := strings.TrimPrefix(fmt.Sprintf("%T", so), "*search.")
+			if b, err := json.Marshal(so); err == nil && k == "SortField" && strings.HasPrefix(string(b), "{") {
+				k += "(object form)"
+			}
+			kinds = append(kinds, k)
+		}
+		return "sort=" + strings.Join(kinds, ",")
+	case "facets":
+		set := map[string]bool{}
+		for _, f := range q.Facets {
+			switch {
+			case len(f.NumericRanges) > 0:
+				set["numeric-ranges"] = true
+			case len(f.DateTimeRanges) > 0:
+				set["date-ranges"] = true
+			case f.TermPrefix != "" || f.TermPattern != "":
+				set["terms-filtered"] = true
+			default:
+				set["terms"] = true
+			}
+		}
+		return "facets=" + strings.Join(bx.Keys(set), "+")
+	}
+	return name
+}
+
+// classifyRequest names the request feature(s) whose removal makes the discrepancy disappear.
+func classifyRequest(ts []target, mk func() *bleve.SearchRequest) string {
+	var present, guilty []string
+	for _, f := range reqFeatures {
+		if !f.present(mk()) {
+			continue
+		}
+		present = append(present, featureDetail(f.name, mk()))
+		f := f
+		w, _, _, _ := requestProblem(ts, func() *bleve.SearchRequest { q := mk(); f.strip(q); return q })
+		if w == "" {
+			guilty = append(guilty, featureDetail(f.name, mk()))
+		}
+	}
+	switch {
+	case len(guilty) > 0:
+		// stripping the sort also strips the cursor: prefer the cursor when it alone is enough
+		if len(guilty) > 1 && guilty[0] == "search_after/before" {
+			return guilty[0]
+		}
+		return guilty[0]
+	case len(present) == 0:
+		return "plain request"
+	}
+	return strings.Join(present, ",")
+}
+
+func checkRequest(r *mc.Run, ts []target, c reqCase) {
+	what, detail, nh, evals := requestProblem(ts, c.mk)
+	r.Eval(evals)
+	if what != "" {
+		b, _ := json.Marshal(c.mk())
+		r.Violation("json-request:"+classifyRequest(ts, c.mk)+":"+what, c.name+": "+detail, map[string]any{"request": c.name, "json": string(b), "part": "a2"})
+	}
+	feat := ""
+	for _, f := range reqFeatures[:4] {
+		if f.present(c.mk()) {
+			feat += featureDetail(f.name, c.mk()) + ";"
+		}
+	}
+	r.Outcome(fmt.Sprintf("a2|%s|hits=%d|ok=%v", feat, nh, what == ""))
 }
 
 func clip(s string, n int) string {
@@ -1311,10 +1409,11 @@ func Run(r *mc.Run) {
 		t0 = time.Now()
 	}
 	// ---- (a1)
-	leaves := leafCases()
+	leaves := plainLeafCases()
+	variants := variantLeafCases()
 	comps := compoundCases(r)
 	st := &a1state{badLeaf: map[string]string{}}
-	r.Note("a1_leaf_queries", len(leaves))
+	r.Note("a1_leaf_queries", len(leaves)+len(variants))
 	r.Note("a1_compound_queries", len(comps))
 	r.ParFor(len(leaves), 0, func(i int) {
 		if cls := checkJSONQuery(r, ts, leaves[i], nil, "a1"); cls != "" {
@@ -1323,7 +1422,9 @@ func Run(r *mc.Run) {
 			st.mu.Unlock()
 		}
 	})
+	r.ParFor(len(variants), 0, func(i int) { checkJSONQuery(r, ts, variants[i], st, "a1") })
 	r.ParFor(len(comps), 0, func(i int) { checkJSONQuery(r, ts, comps[i], st, "a1") })
+	leaves = append(leaves, variants...)
 	if b, err := json.Marshal(comps[len(comps)/2].mk()); err == nil {
 		r.Sample(map[string]any{"a1_query": comps[len(comps)/2].name, "json": string(b)})
 	}
